@@ -119,7 +119,7 @@ func replayFor(r *PropResult, o *Obligation) *replayTemplate {
 			return replayDecoderEnsures(r, o)
 		}
 	}
-	if sc, ok := scenarioFor(shortName(o.Func)); ok {
+	if sc, ok := scenarioForObligation(o); ok {
 		return &replayTemplate{pkgRel: sc.pkgRel, testName: "TestGvcReplay", src: sc.src, what: sc.what}
 	}
 	if fn, ok := replayRegistry[o.Kind]; ok {
